@@ -363,4 +363,491 @@ theorem setItem_create_any (cls : Cls) (kvs : List (Str × Val)) (q : Pos) (cur 
     exact setItem_create_idx cls kvs q cur cur' e steps v t' fuel hp hget hsteps hg hcreate hset
       (fun h => hencl (by rw [h])) hf
 
+/-! ## read-back through `replace("new()", "last()")` -/
+
+/-! ### `str.replace` as a left-to-right scan -/
+
+/-- `s.replace("new()", "last()")` as a scan (fuel = length + 1 suffices) -/
+def replF : Nat → Str → Str
+  | 0, s => s
+  | _ + 1, [] => []
+  | f + 1, c :: s => if startsWith (c :: s) sNew then sLast ++ replF f ((c :: s).drop 5) else c :: replF f s
+
+theorem splitAux_ne_nil (sep : Str) (n : Nat) : ∀ (fuel : Nat) (cur s : Str), splitAux sep n fuel cur s ≠ []
+  | 0, _, _ => by simp [splitAux]
+  | _ + 1, _, [] => by simp [splitAux]
+  | f + 1, cur, c :: s => by
+    rw [splitAux]
+    split
+    · simp
+    · exact splitAux_ne_nil sep n f _ _
+
+theorem join_cons_of_ne_nil (sep x : Str) {xs : List Str} (h : xs ≠ []) : join sep (x :: xs) = x ++ sep ++ join sep xs := by
+  cases xs with
+  | nil => exact absurd rfl h
+  | cons y ys => rfl
+
+theorem join_splitAux_new : ∀ (fuel : Nat) (cur s : Str), s.length < fuel →
+    join sLast (splitAux sNew 5 fuel cur s) = cur.reverse ++ replF fuel s
+  | 0, _, _, h => by omega
+  | f + 1, cur, [], _ => by simp [splitAux, join, replF]
+  | f + 1, cur, c :: s, h => by
+    rw [splitAux, replF]
+    by_cases hs : startsWith (c :: s) sNew = true
+    · simp only [hs, if_true]
+      rw [join_cons_of_ne_nil _ _ (splitAux_ne_nil _ _ _ _ _),
+        join_splitAux_new f [] ((c :: s).drop 5) (by simp at h ⊢; omega)]
+      simp
+    · simp only [hs, Bool.false_eq_true, if_false]
+      rw [join_splitAux_new f (c :: cur) s (by simp at h; omega)]
+      simp
+
+theorem replF_fuel : ∀ (f1 f2 : Nat) (s : Str), s.length < f1 → s.length < f2 → replF f1 s = replF f2 s
+  | 0, _, _, h, _ => by omega
+  | _ + 1, 0, _, _, h => by omega
+  | f1 + 1, f2 + 1, [], _, _ => by simp [replF]
+  | f1 + 1, f2 + 1, c :: s, h1, h2 => by
+    rw [replF, replF]
+    split
+    · rw [replF_fuel f1 f2 ((c :: s).drop 5) (by simp at h1 ⊢; omega) (by simp at h2 ⊢; omega)]
+    · rw [replF_fuel f1 f2 s (by simp at h1; omega) (by simp at h2; omega)]
+
+/-- the scan, with the fuel hidden -/
+def replNew (s : Str) : Str := replF (s.length + 1) s
+
+theorem replace_new_last (s : Str) : replace sNew sLast s = replNew s := by
+  unfold replace split replNew
+  rw [show sNew.length = 5 from rfl, join_splitAux_new _ [] s (by omega)]
+  rfl
+
+theorem replNew_nil : replNew [] = [] := rfl
+
+theorem replNew_cons_ne (c : Char) (s : Str) (h : startsWith (c :: s) sNew = false) :
+    replNew (c :: s) = c :: replNew s := by
+  unfold replNew
+  rw [replF]
+  simp only [h, Bool.false_eq_true, if_false]
+  rw [replF_fuel _ (s.length + 1) s (by simp) (by simp)]
+
+theorem replNew_new (b : Str) : replNew (sNew ++ b) = sLast ++ replNew b := by
+  unfold replNew
+  rw [show sNew ++ b = 'n' :: (['e', 'w', '(', ')'] ++ b) from rfl, replF]
+  have : startsWith ('n' :: (['e', 'w', '(', ')'] ++ b)) sNew = true := by simp [startsWith, sNew]
+  simp only [this, if_true]
+  rw [show ('n' :: (['e', 'w', '(', ')'] ++ b)).drop 5 = b from rfl,
+    replF_fuel _ (b.length + 1) b (by simp; omega) (by simp)]
+
+/-- a text no character of which is `(` -/
+def NoParen (s : Str) : Prop := ∀ c ∈ s, c ≠ '('
+
+/-- what follows starts a new step (or nothing follows) -/
+def SafeStart (b : Str) : Prop := b = [] ∨ ∃ c r, b = c :: r ∧ (c = '/' ∨ c = '[')
+
+theorem startsWith_new_false (a b : Str) (ha : NoParen a) (hne : a ≠ []) (hb : SafeStart b) :
+    startsWith (a ++ b) sNew = false := by
+  have h3 : ∀ x1 x2 x3 x4 (r : Str), x4 ≠ '(' → startsWith (x1 :: x2 :: x3 :: x4 :: r) sNew = false := by
+    intro x1 x2 x3 x4 r h
+    simp [startsWith, sNew, h]
+  match a, hne, ha with
+  | x1 :: x2 :: x3 :: x4 :: a4, _, ha => exact h3 _ _ _ _ _ (ha x4 (by simp))
+  | [x1, x2, x3], _, _ =>
+    rcases hb with rfl | ⟨c, r, rfl, hc | hc⟩
+    · simp [startsWith, sNew]
+    · subst hc; exact h3 _ _ _ _ _ (by decide)
+    · subst hc; exact h3 _ _ _ _ _ (by decide)
+  | [x1, x2], _, _ =>
+    rcases hb with rfl | ⟨c, r, rfl, hc | hc⟩
+    · simp [startsWith, sNew]
+    · subst hc; simp [startsWith, sNew]
+    · subst hc; simp [startsWith, sNew]
+  | [x1], _, _ =>
+    rcases hb with rfl | ⟨c, r, rfl, hc | hc⟩
+    · simp [startsWith, sNew]
+    · subst hc; simp [startsWith, sNew]
+    · subst hc; simp [startsWith, sNew]
+
+/-- a stretch without `(` followed by the start of a step is copied -/
+theorem replNew_append (a b : Str) (ha : NoParen a) (hb : SafeStart b) : replNew (a ++ b) = a ++ replNew b := by
+  induction a with
+  | nil => rfl
+  | cons x a ih =>
+    rw [List.cons_append, replNew_cons_ne x (a ++ b) (startsWith_new_false (x :: a) b ha (by simp) hb),
+      ih (fun c hc => ha c (by simp [hc]))]
+    rfl
+
+theorem replNew_noParen (a : Str) (ha : NoParen a) : replNew a = a := by
+  have := replNew_append a [] ha (Or.inl rfl)
+  simpa [replNew_nil] using this
+
+theorem replNew_bracket_new (b : Str) : replNew (bracket sNew ++ b) = bracket sLast ++ replNew b := by
+  rw [show bracket sNew ++ b = '[' :: (sNew ++ ']' :: b) by simp [bracket],
+    replNew_cons_ne '[' _ (by simp [startsWith, sNew]), replNew_new,
+    replNew_cons_ne ']' _ (by simp [startsWith, sNew])]
+  simp [bracket]
+
+/-! ### the path text after the replacement -/
+
+/-- the index text after `replace("new()", "last()")` -/
+def lastIdx (e : Str) : Str := if e = sNew then sLast else e
+
+/-- the creation step as it is read back -/
+def lastify : CStep → CStep
+  | .name n => .name n
+  | .elem n e => .elem n (lastIdx e)
+  | .idx e => .idx (lastIdx e)
+
+/-- index texts of the grammar: `new()`, or a text without `(` (a number) -/
+def IdxOk (e : Str) : Prop := e = sNew ∨ NoParen e
+
+/-- no name of the step contains `(` (otherwise `replace` could rewrite a *name* containing `new()`) -/
+def CStep.noParen : CStep → Prop
+  | .name n => NoParen n
+  | .elem n e => NoParen n ∧ IdxOk e
+  | .idx e => IdxOk e
+
+/-- no key on the position contains `(` -/
+def NoParenPos : Pos → Prop
+  | [] => True
+  | .key k :: rest => NoParen k ∧ NoParenPos rest
+  | .idx _ :: rest => NoParenPos rest
+
+theorem noParen_natStr (n : Nat) : NoParen (natStr n) := by
+  intro c hc h
+  subst h
+  exact absurd (natDigits_all_digit n _ hc) (by decide)
+
+theorem noParen_bracket {e : Str} (h : NoParen e) : NoParen (bracket e) := by
+  intro c hc
+  simp only [bracket, List.mem_cons, List.mem_append, List.not_mem_nil, or_false] at hc
+  rcases hc with (hc | hc) | hc
+  · subst hc; decide
+  · exact h c hc
+  · subst hc; decide
+
+theorem noParen_renderPos : ∀ (q : Pos), NoParenPos q → NoParen (renderPos q)
+  | [], _ => by intro c hc; simp [renderPos] at hc
+  | .key k :: rest, h => by
+    intro c hc
+    simp only [renderPos, List.flatMap_cons, renderSeg, List.mem_append, List.mem_cons] at hc
+    rcases hc with (hc | hc) | hc
+    · subst hc; decide
+    · exact h.1 c hc
+    · exact noParen_renderPos rest h.2 c hc
+  | .idx n :: rest, h => by
+    intro c hc
+    simp only [renderPos, List.flatMap_cons, renderSeg, List.mem_append] at hc
+    rcases hc with hc | hc
+    · exact noParen_bracket (noParen_natStr n) c hc
+    · exact noParen_renderPos rest h c hc
+
+theorem safeStart_steps (steps : List CStep) : SafeStart (steps.flatMap renderCStep) := by
+  cases steps with
+  | nil => exact Or.inl rfl
+  | cons s r =>
+    cases s with
+    | name n => exact Or.inr ⟨'/', n ++ r.flatMap renderCStep, by simp [renderCStep], Or.inl rfl⟩
+    | elem n e => exact Or.inr ⟨'/', n ++ bracket e ++ r.flatMap renderCStep, by simp [renderCStep], Or.inl rfl⟩
+    | idx e => exact Or.inr ⟨'[', e ++ ']' :: r.flatMap renderCStep, by simp [renderCStep, bracket], Or.inr rfl⟩
+
+theorem replNew_bracket (e b : Str) (he : IdxOk e) (hb : SafeStart b) :
+    replNew (bracket e ++ b) = bracket (lastIdx e) ++ replNew b := by
+  by_cases h : e = sNew
+  · subst h
+    simp only [lastIdx, if_true]
+    exact replNew_bracket_new b
+  · have hn : NoParen e := by
+      rcases he with he | he
+      · exact absurd he h
+      · exact he
+    simp only [lastIdx, h, if_false]
+    exact replNew_append _ b (noParen_bracket hn) hb
+
+theorem replNew_steps : ∀ (steps : List CStep), (∀ x ∈ steps, x.noParen) →
+    replNew (steps.flatMap renderCStep) = (steps.map lastify).flatMap renderCStep
+  | [], _ => rfl
+  | s :: r, h => by
+    have ih := replNew_steps r (fun x hx => h x (by simp [hx]))
+    have hs := h s (by simp)
+    have hsafe := safeStart_steps r
+    cases s with
+    | name n =>
+      have hn : NoParen ('/' :: n) := by
+        intro c hc; simp at hc; rcases hc with rfl | hc
+        · decide
+        · exact hs c hc
+      simp only [List.flatMap_cons, List.map_cons, lastify, renderCStep]
+      rw [replNew_append _ _ hn hsafe, ih]
+    | elem n e =>
+      have hn : NoParen ('/' :: n) := by
+        intro c hc; simp at hc; rcases hc with rfl | hc
+        · decide
+        · exact hs.1 c hc
+      simp only [List.flatMap_cons, List.map_cons, lastify, renderCStep]
+      rw [show ('/' :: n ++ bracket e) ++ r.flatMap renderCStep = ('/' :: n) ++ (bracket e ++ r.flatMap renderCStep) by simp,
+        replNew_append _ _ hn (Or.inr ⟨'[', e ++ ']' :: r.flatMap renderCStep, by simp [bracket], Or.inr rfl⟩), replNew_bracket e _ hs.2 hsafe, ih]
+      simp
+    | idx e =>
+      simp only [List.flatMap_cons, List.map_cons, lastify, renderCStep]
+      rw [replNew_bracket e _ hs hsafe, ih]
+
+/-- **the path after `replace("new()", "last()")`**: every `new()` index becomes `last()`, nothing
+else changes -/
+theorem replace_path (q : Pos) (steps : List CStep) (hq : NoParenPos q) (hsteps : ∀ x ∈ steps, x.noParen) :
+    replace sNew sLast (slash ++ renderPos q ++ steps.flatMap renderCStep)
+      = slash ++ renderPos q ++ (steps.map lastify).flatMap renderCStep := by
+  have hn : NoParen (slash ++ renderPos q) := by
+    intro c hc
+    simp only [slash, List.mem_append, List.mem_cons, List.not_mem_nil, or_false] at hc
+    rcases hc with rfl | hc
+    · decide
+    · exact noParen_renderPos q hq c hc
+  rw [replace_new_last, replNew_append _ _ hn (safeStart_steps steps), replNew_steps steps hsteps]
+
+/-! ### tokens and spelling of the read-back path -/
+
+/-- steps that can be read: names, and `name[e]` with a tokeniser-clean index text -/
+def CStep.tokOk : CStep → Prop
+  | .name n => PlainKey n
+  | .elem n e => PlainKey n ∧ CleanIdx e
+  | .idx _ => False
+
+theorem lastIdx_of_later {e : Str} (he : e = sNew ∨ e = ['0']) : lastIdx e = sLast ∨ lastIdx e = natStr 0 := by
+  rcases he with rfl | rfl
+  · left; simp [lastIdx]
+  · right; decide
+
+theorem tokOk_lastify {s : CStep} (h : s.later) : (lastify s).tokOk := by
+  cases s with
+  | name n => exact h
+  | elem n e =>
+    refine ⟨h.1, ?_⟩
+    rcases lastIdx_of_later h.2 with h' | h'
+    · simp only [h']; exact cleanIdx_last
+    · simp only [h']; exact cleanIdx_nat 0
+  | idx e => exact absurd h (by simp [CStep.later])
+
+theorem renderStep_tokOk {s : CStep} (hs : s.tokOk) : renderCStep s = '/' :: stepTok s := by
+  cases s with
+  | name n => rfl
+  | elem n e => rfl
+  | idx e => exact absurd hs (by simp [CStep.tokOk])
+
+theorem tokenize_stepTok' {s : CStep} (hs : s.tokOk) : tokenize (stepTok s) = [stepTok s] := by
+  cases s with
+  | name n => exact tokenize_key hs
+  | elem n e => exact tokenize_keyBracket hs.1 hs.2
+  | idx e => exact absurd hs (by simp [CStep.tokOk])
+
+theorem tokenize_then_steps' : ∀ (steps : List CStep) (T : Str), (∀ x ∈ steps, x.tokOk) →
+    tokenize (T ++ steps.flatMap renderCStep) = tokenize T ++ steps.map stepTok
+  | [], T, _ => by simp
+  | s :: r, T, h => by
+    have hs := h s (by simp)
+    have ih := tokenize_then_steps' r (stepTok s) (fun x hx => h x (by simp [hx]))
+    rw [List.flatMap_cons, renderStep_tokOk hs,
+      show T ++ ('/' :: stepTok s ++ r.flatMap renderCStep) = T ++ '/' :: (stepTok s ++ r.flatMap renderCStep) by simp,
+      tokenize_append_slash, ih, tokenize_stepTok' hs]
+    simp
+
+/-- tokens of the read-back path `//…q…/s'/steps'…` -/
+theorem tokenize_readback_path (q : Pos) (hp : PlainPos q) (s : CStep) (steps : List CStep)
+    (hs : s.tokOk) (hsteps : ∀ x ∈ steps, x.tokOk) :
+    tokenize (slash ++ renderPos q ++ (s :: steps).flatMap renderCStep) = mergedToks q ++ stepTok s :: steps.map stepTok := by
+  have hname : PlainKey s.nameOf := by
+    cases s with
+    | name n => exact hs
+    | elem n e => exact hs.1
+    | idx e => exact absurd hs (by simp [CStep.tokOk])
+  have h1 := tokenize_steps_path q hp s [] hname
+    (by intro n e h; subst h; exact hs.2) (by intro e h; subst h; exact absurd hs (by simp [CStep.tokOk])) (by simp)
+  simp only [List.flatMap_cons, List.flatMap_nil, List.append_nil, List.map_nil] at h1
+  rw [List.flatMap_cons, ← List.append_assoc, tokenize_then_steps' steps _ hsteps, h1]
+  simp
+
+/-- the position the later steps reach inside what they created -/
+def fillPos : List CStep → Pos
+  | [] => []
+  | .name n :: r => .key n :: fillPos r
+  | .elem n _ :: r => .key n :: .idx 0 :: fillPos r
+  | .idx _ :: r => .idx 0 :: fillPos r
+
+theorem keyIdxTok_zero {name : Str} (hn : PlainKey name) : KeyIdxTok (name ++ bracket (natStr 0)) name (natStr 0) 0 :=
+  keyIdxTok_of hn (natStr_idxExpr 0) (natStr_ne_special 0).1 (natStr_ne_special 0).2 (n0eval_nat 0)
+
+/-- the read-back tokens of later steps walk through what those steps created, down to `v` -/
+theorem spells_fill : ∀ (steps : List CStep) (v : Val), (∀ x ∈ steps, x.later) →
+    Spells ((steps.map lastify).map stepTok) (fill steps v) (fillPos steps) v
+  | [], v, _ => .nil v
+  | s :: r, v, h => by
+    have ih := spells_fill r v (fun x hx => h x (by simp [hx]))
+    have hs := h s (by simp)
+    cases s with
+    | idx e => exact absurd hs (by simp [CStep.later])
+    | name n =>
+      simp only [List.map_cons, lastify, stepTok, fill, fillPos]
+      exact .key (PlainKey.keyTok hs) (by simp [lookup]) ih
+    | elem n e =>
+      simp only [List.map_cons, lastify, stepTok, fill, fillPos]
+      rcases lastIdx_of_later hs.2 with h' | h'
+      · rw [h']
+        exact .keyIdx (cls' := .n0) (xs := [fill r v]) (n := 0) (keyIdxTok_last hs.1) (by simp [lookup])
+          (show normIdx (-1) 1 = some 0 by decide) (by simp) ih
+      · rw [h']
+        exact .keyIdx (cls' := .n0) (xs := [fill r v]) (n := 0) (keyIdxTok_zero hs.1) (by simp [lookup])
+          (show normIdx 0 1 = some 0 by decide) (by simp) ih
+
+/-- what the first step makes of the dict it is applied to -/
+theorem createIn_elem_inv {kcls : Cls} {nkvs : List (Str × Val)} {n e : Str} {r : List CStep} {v cur' : Val}
+    (h : createIn (.dict kcls nkvs) (.elem n e :: r) v = some cur') :
+    ∃ c ys, cur' = .dict kcls (kvSet n (.list c (ys ++ [fill r v])) nkvs) ∧ (e = sNew ∨ e = natStr ys.length) := by
+  simp only [createIn] at h
+  split at h
+  · split at h
+    · rename_i he
+      cases h
+      refine ⟨.n0, [], rfl, ?_⟩
+      rcases he with he | he
+      · exact Or.inl he
+      · exact Or.inr (by rw [he]; decide)
+    · cases h
+  · rename_i old _
+    split at h
+    · cases h
+      by_cases hl : isList old = true
+      · obtain ⟨c, xs, rfl⟩ := isList_inv hl
+        exact ⟨c, xs, rfl, Or.inl ‹_›⟩
+      · rw [appendTo_nonlist (by simpa using hl)]
+        exact ⟨.n0, [old], rfl, Or.inl ‹_›⟩
+    · split at h
+      · split at h
+        · cases h
+          exact ⟨_, _, rfl, Or.inr (by assumption)⟩
+        · cases h
+      · cases h
+
+theorem createIn_dict (c : Cls) (kvs : List (Str × Val)) (steps : List CStep) (v cur' : Val)
+    (h : createIn (.dict c kvs) steps v = some cur') : ∃ kvs', cur' = .dict c kvs' := by
+  cases steps with
+  | nil => simp [createIn] at h
+  | cons s r =>
+    cases s with
+    | name n =>
+      simp only [createIn] at h
+      split at h
+      · cases h; exact ⟨_, rfl⟩
+      · cases h
+    | elem n e =>
+      obtain ⟨_, _, rfl, _⟩ := createIn_elem_inv h
+      exact ⟨_, rfl⟩
+    | idx e => simp [createIn] at h
+
+/-- **general read-back.**  After the creation `d[//…q…/s/steps…] = v` of `setItem_create_steps`,
+`d[xpath.replace("new()", "last()")]` returns `v` and leaves the tree as it is. -/
+theorem getItem_readback_steps (cls : Cls) (kvs : List (Str × Val)) (q : Pos) (kcls : Cls) (nkvs : List (Str × Val))
+    (s : CStep) (steps : List CStep) (v cur' t' : Val) (fuel : Nat)
+    (hp : PlainPos q) (hget : getAt (.dict cls kvs) q = some (.dict kcls nkvs))
+    (hfirst : s.first) (hidx : ∀ e, s ≠ .idx e) (hsteps : ∀ x ∈ steps, x.later)
+    (hnq : NoParenPos q) (hnp : ∀ x ∈ s :: steps, NoParen x.nameOf)
+    (hcreate : createIn (.dict kcls nkvs) (s :: steps) v = some cur')
+    (hset : setAt (.dict cls kvs) q cur' = some t') (hf : fuel ≥ 2 * (q.length + steps.length + 1)) :
+    getItem fuel t' (replace sNew sLast (slash ++ renderPos q ++ (s :: steps).flatMap renderCStep)) = (t', .ok v) := by
+  -- the root after the creation is a dict
+  obtain ⟨kvs', rfl⟩ : ∃ kvs', t' = .dict cls kvs' := by
+    cases q with
+    | nil =>
+      simp only [getAt, Option.some.injEq] at hget
+      cases hget
+      simp only [setAt, Option.some.injEq] at hset
+      subst hset
+      exact createIn_dict _ _ _ _ _ hcreate
+    | cons s0 q' => exact setAt_dict_root' cls kvs (s0 :: q') cur' _ (by simp) hset
+  have hgq : getAt (.dict cls kvs') q = some cur' := getAt_setAt_same q _ _ _ hset (fun _ _ => trivial)
+  have hlen := mergedToks_length_le q
+  have hs1 := spells_merged q _ _ hp hgq
+  have hfill := spells_fill steps v hsteps
+  have hstepsTok : ∀ x ∈ steps.map lastify, x.tokOk := by
+    intro x hx
+    obtain ⟨y, hy, rfl⟩ := List.mem_map.1 hx
+    exact tokOk_lastify (hsteps y hy)
+  have hstepsNP : ∀ x ∈ steps, x.noParen := by
+    intro x hx
+    have hl := hsteps x hx
+    have hn := hnp x (by simp [hx])
+    cases x with
+    | name n => exact hn
+    | elem n e =>
+      refine ⟨hn, ?_⟩
+      rcases hl.2 with rfl | rfl
+      · exact Or.inl rfl
+      · exact Or.inr (by intro c hc h; subst h; simp at hc)
+    | idx e => exact absurd hl (by simp [CStep.later])
+  have hpc : ∀ (T : Str), hasPathChar (slash ++ T) = true := by intro T; simp [hasPathChar, slash]
+  have hqm : ∀ (T : Str), startsWith (slash ++ T) ['?'] = false := by intro T; simp [slash, startsWith]
+  cases s with
+  | idx e => exact absurd rfl (hidx e)
+  | name n =>
+    have hn : PlainKey n := hfirst
+    simp only [createIn] at hcreate
+    split at hcreate
+    · cases hcreate
+      rw [replace_path q _ hnq (by
+        intro x hx; simp only [List.mem_cons] at hx
+        rcases hx with rfl | hx
+        · exact hnp (.name n) (by simp)
+        · exact hstepsNP x hx)]
+      simp only [List.map_cons, lastify]
+      have htok := tokenize_readback_path q hp (.name n) (steps.map lastify) hn hstepsTok
+      have hs2 : Spells (n :: (steps.map lastify).map stepTok) (.dict kcls (kvSet n (fill steps v) nkvs))
+          (.key n :: fillPos steps) v := .key hn.keyTok (lookup_kvSet_same _ _ _) hfill
+      have hs := hs1.append hs2
+      rw [List.append_assoc]
+      exact getItem_spelled cls kvs' _ _ _ v fuel (hqm _) (hpc _) (by rw [← List.append_assoc]; exact htok) hs (by simp)
+        (by simp; omega)
+    · cases hcreate
+  | elem n e =>
+    have hn : PlainKey n := hfirst
+    obtain ⟨c, ys, rfl, he⟩ := createIn_elem_inv hcreate
+    -- the index after the replacement denotes the last element
+    obtain ⟨i, hki, hni⟩ : ∃ i : Int, KeyIdxTok (n ++ bracket (lastIdx e)) n (lastIdx e) i ∧
+        normIdx i (ys ++ [fill steps v]).length = some ys.length := by
+      by_cases h : e = sNew
+      · subst h
+        refine ⟨-1, by simpa [lastIdx] using keyIdxTok_last hn, ?_⟩
+        have := normIdx_last (ys ++ [fill steps v]).length (by simp)
+        simpa using this
+      · have he' : e = natStr ys.length := by
+          rcases he with he | he
+          · exact absurd he h
+          · exact he
+        subst he'
+        refine ⟨(ys.length : Int), ?_, ?_⟩
+        · simp only [lastIdx, h, if_false]
+          exact keyIdxTok_of hn (natStr_idxExpr _) (natStr_ne_special _).1 (natStr_ne_special _).2 (n0eval_nat _)
+        · exact normIdx_nat (by simp)
+    have heOk : IdxOk e := by
+      rcases he with he | he
+      · exact Or.inl he
+      · exact Or.inr (by rw [he]; exact noParen_natStr _)
+    have hce : CleanIdx (lastIdx e) := by
+      by_cases h : e = sNew
+      · simp only [lastIdx, h, if_true]; exact cleanIdx_last
+      · simp only [lastIdx, h, if_false]
+        rcases he with he | he
+        · exact absurd he h
+        · rw [he]; exact cleanIdx_nat _
+    rw [replace_path q _ hnq (by
+      intro x hx; simp only [List.mem_cons] at hx
+      rcases hx with rfl | hx
+      · exact ⟨hnp (.elem n e) (by simp), heOk⟩
+      · exact hstepsNP x hx)]
+    simp only [List.map_cons, lastify]
+    have htok := tokenize_readback_path q hp (.elem n (lastIdx e)) (steps.map lastify) ⟨hn, hce⟩ hstepsTok
+    have hs2 : Spells ((n ++ bracket (lastIdx e)) :: (steps.map lastify).map stepTok)
+        (.dict kcls (kvSet n (.list c (ys ++ [fill steps v])) nkvs)) (.key n :: .idx ys.length :: fillPos steps) v :=
+      .keyIdx hki (lookup_kvSet_same _ _ _) hni (by simp) hfill
+    have hs := hs1.append hs2
+    rw [List.append_assoc]
+    exact getItem_spelled cls kvs' _ _ _ v fuel (hqm _) (hpc _) (by rw [← List.append_assoc]; exact htok) hs (by simp)
+      (by simp; omega)
+
 end N0.XPath
